@@ -22,7 +22,7 @@ def main():
             c = [x.replace("{tree}", d) for x in cmd]
             p = subprocess.run(c, capture_output=True, text=True)
             out = (p.stdout + p.stderr).strip().splitlines()
-            bad = [l for l in out if l.strip().startswith(("REFUTED", "UNKNOWN", "UNSUPPORTED"))]
+            bad = [l for l in out if l.strip().startswith(("REFUTED", "UNKNOWN", "UNSUPPORTED", "VIOLATION", "UNDECIDED", "KNOWN", "EXIT", "MACHINERY", "Traceback"))]
             print(f"## {m['id']} ({m.get('expect','')}): exit={p.returncode} {out[-1] if out else ''}")
             for l in bad[:6]:
                 print("     ", l.strip()[:200])
